@@ -1067,11 +1067,12 @@ func isEmptyValue(v interface{}) bool {
 		return value == ""
 	case bool:
 		return !value
-	case int, int8, int16, int32, int64:
+	case int:
 		return value == 0
-	case uint, uint8, uint16, uint32, uint64:
-		return value == 0
-	case float32, float64:
+	case float64:
+		// computed numbers are float64; the other numeric widths are handled
+		// by reflection below (in a multi-type case the value would stay an
+		// interface and never compare equal to the constant 0)
 		return value == 0
 	case []interface{}:
 		return len(value) == 0
